@@ -12,12 +12,12 @@ def reconf(timeout=1500, solver="kissat"):
     h = t1(1, timeout, solver)
     h.name = "simcam_reconfigure_step_" + solver
     h.defines = ["MODE=3"]
-    h.what = "re-configuration as an induction step: arbitrary earlier configuration (binning, clamped shape, type) whose buffers satisfy the size invariant, then one fully symbolic simcam_set: same obligations (buffers >= extent of the NEW full-resolution render)"
+    h.what = "re-configuration as an induction step: arbitrary earlier configuration (binning in {1,2,4,8}, clamped shape, type) whose buffers satisfy the size invariant, then one fully symbolic simcam_set: same obligations (buffers >= extent of the NEW full-resolution render)"
     return h
 
 def harnesses(tier, findings):
     if tier == "probe":
-        return [reconf(solver="kissat"), reconf(solver="cadical")]
+        return [reconf(solver="kissat", timeout=1200), reconf(solver="cadical", timeout=1200)]
     if tier == "quick":
         return [t1(1), reconf()]
     return [t1(1), reconf(3000)]
